@@ -234,6 +234,15 @@ def make_app_class(versions=(0,)):
         def __init__(self, *a, **k):
             super(App, self).__init__(*a, **k)
             self.history = []       # after SyncObj.__init__, so that it is part of every snapshot
+            n = getattr(SimTransport.sim, 'cfg', {}).get('ballast', 0)
+            if n:
+                # constant incompressible user data: makes snapshots larger than any I/O buffer
+                import hashlib
+                out, h = [], b'ballast'
+                while sum(len(x) for x in out) < n:
+                    h = hashlib.sha256(h).digest()
+                    out.append(h)
+                self.ballast = b''.join(out)[:n]
 
 
         @replicated
